@@ -298,6 +298,15 @@ def unit_ods_audit():
                 return None if err is not None else {"expected": "DataFormatError: sheet %d of 3 does not exist" % k, "observed": got}
             res.append(sweep("C15/audit/the Sheet property of an ODS CID selects the sheet the validating reader reads", [1, 2, 3, 4], reader_sheet_check, "audit", "a 3-sheet document x Sheet 1..4 through validio.rows",
                              describe=lambda k: {"sheet": k}, function="validio.Reader._raw_rows + rowio.ods_rows", unit="C15.audit", props=["C15"]))
+            # a CID stored as ODS is recognised by its suffix whatever the case of the letters
+            def suffix_check(name):
+                from cutplace import interface
+                path = os.path.join(tmp, name); write_ods(path, encode_ods([[["d", "format", "delimited"], ["f", "id", "", "", "", "Integer"], ["f", "name", "", "", ""]]], {"col_runs"}))
+                try: cid = interface.Cid(path)
+                except Exception as e: return {"expected": "CID %s loads (fields id, name)" % name, "observed": repr(e)[:200]}
+                finally: os.unlink(path)
+                return None if cid.field_names == ["id", "name"] else {"expected": ["id", "name"], "observed": cid.field_names}
+            res.append(sweep("C15/audit/a CID stored as ODS loads whatever the case of its suffix", ["cid.ods", "CID.ODS", "Cid.Ods"], suffix_check, "audit", "3 file names", describe=lambda c: {"file": c}, function="rowio.auto_rows + ods_rows", unit="C15.audit", props=["C15", "C17"]))
             # rich encodings (recorded finding K-4): counted, reported once
             bad = []
             for c in cases(RICH_FEATURES, False):
